@@ -83,6 +83,10 @@ class World:
         if symconst:
             sc.update(symconst)
         self.I = I = Interp(src, symbolic_constants=sc, stubs=stubs, arrays=arrays)
+        pos = {"positive": True}
+        I.default_open = {"core.Element": {"_mass", "_density"}, "core.Isotope": {"_mass", "_abundance"}}
+        I.default_sym_kw = {"core.Element": {"_mass": pos, "_density": pos},
+                            "core.Isotope": {"_mass": pos, "_abundance": {"nonnegative": True}}}
         self.PT = I.get_class("core.PeriodicTable")
         for c in CORE_CLASSES:
             I.get_class("core." + c)
